@@ -4,7 +4,7 @@ use indicatif::verif_hooks as vh;
 use indicatif::{ProgressBar, ProgressDrawTarget, ProgressFinish, ProgressStyle, TermLike};
 
 pub const T0: u64 = 1_000_000_000_000;
-pub const TEMPLATES: [&str; 6] = ["{msg}", "{prefix} {pos}/{len}", "{prefix}|{msg}|{pos}/{len}", "{msg}\n{prefix}:{pos}", "\n{msg}", "{pos}"];
+pub const TEMPLATES: [&str; 7] = ["{msg}", "{prefix} {pos}/{len}", "{prefix}|{msg}|{pos}/{len}", "{msg}\n{prefix}:{pos}", "\n{msg}", "{pos}", "{\n{msg}:{pos}"];
 
 /// text for the model: one `cp:w` glyph per character, an SGR colour sequence as one zero-width glyph (`27:0`)
 pub fn enc(s: &str) -> String {
